@@ -11,7 +11,10 @@ Leaf event (JSON-able dict)
   p   list of [step, alter|None, octave]  (one entry for n/g, several for c)
   tie list of 0/1 per pitch: tied to the same pitch in the next sounding event of the same layer/spine
   acc (MEI) how the accidental is written: 'attr' | 'ges' | 'child' | 'childges'
-  st  (MEI) staff attribute written on the element (cross-staff notation)
+  st  (MEI) staff attribute written on the element (cross-staff notation); on a chord: on the <chord> element
+  pst (MEI, chords) list with one entry per pitch: staff attribute written on that <note> of the chord, None = no attribute.
+      The staff of a chord member is the most specific statement: its own @staff, else the chord's @staff, else the
+      enclosing <staff>.  (export->load parts: the staff of that Note object)
   clef (MEI) ['F', 4]: a <clef> element is written in the layer just before this event
   nosym (export->load parts only) the object is created without symbolic_duration; there 's' is a gap in the voice
 Containers (any nesting):  {'k': 'tup', 'num': 3, 'nb': 2, 'ev': [...]}   {'k': 'beam', 'ev': [...]}
@@ -111,9 +114,10 @@ class _Layer(object):
                 kind = "grace" if k == "g" else "note"
                 ties = leaf.get("tie") or [0] * len(leaf["p"])
                 new_open = {}
-                for (step, alter, octv), t in zip(leaf["p"], ties):
+                pst = leaf.get("pst") or [None] * len(leaf["p"])
+                for (step, alter, octv), t, own in zip(leaf["p"], ties, pst):
                     pk = (step, norm_alter(alter), octv)
-                    staff = leaf.get("st", self.staff)
+                    staff = own or leaf.get("st", self.staff)
                     self.part["notes"].append((pos, d, kind, step, norm_alter(alter), octv, self.vlabel, staff))
                     key = (pos, step, norm_alter(alter), octv, self.vlabel)
                     if k != "g" and pk in self.open:
@@ -438,8 +442,8 @@ def mei_text(doc):
                 nids = [ids.new("n") for _ in e["p"]]
                 if k == "c":
                     w('<chord xml:id="%s"%s%s>' % (ids.new("ch"), dur_attrs(e, tup), st_attr))
-                    for p, nid in zip(e["p"], nids):
-                        w(note_xml(p, e, "", nid))
+                    for p, nid, own in zip(e["p"], nids, e.get("pst") or [None] * len(nids)):
+                        w(note_xml(p, e, ' staff="%d"' % own if own else "", nid))
                     w("</chord>")
                 else:
                     extra = dur_attrs(e, tup) + st_attr
